@@ -147,7 +147,8 @@ class Run:
         }
         cov.update(self.extra)
         ev = {"property_id": self.prop, "tier": self.tier, "seed": SEED, "level": self.level, "coverage": cov, "wall_s": round(wall, 2)}
-        evdir = os.environ.get("VERIF_EVIDENCE_DIR") or os.path.join(VERIF, "evidence")
+        # extras (ids X..: behaviour beyond the listed properties) keep their evidence apart from the claimed properties
+        evdir = os.environ.get("VERIF_EVIDENCE_DIR") or os.path.join(VERIF, "evidence_extra" if self.prop.startswith("X") else "evidence")
         os.makedirs(evdir, exist_ok=True)
         with open(os.path.join(evdir, self.prop + ".json"), "w") as fh:
             json.dump(ev, fh, indent=1, default=str)
